@@ -1,8 +1,9 @@
 #!/bin/bash
 # Self-test (not a registered check): apply every seeded change to /repo, run the check of its property, revert; write seeded/RESULTS.txt
 cd /verif
-out=seeded/RESULTS.txt; : > $out.tmp
-for d in seeded/C*-*; do
+out=${OUT:-seeded/RESULTS.txt}; : > $out.tmp
+LIST=${@:-seeded/C*-*}
+for d in $LIST; do
   sid=$(basename $d); pid=${sid%-*}
   r=$(LINES_MAX=14 tools/try_mutant.sh $PWD/$d/patch.diff $pid 2>&1)
   ex=$(echo "$r" | grep -a "exit=" | tail -1 | sed 's/.*exit=//')
